@@ -1,6 +1,13 @@
 module github.com/vogo/gohessian
 
+go 1.23.5
+
 require (
 	github.com/stretchr/testify v1.2.2
 	github.com/vogo/logger v1.0.0
+)
+
+require (
+	github.com/davecgh/go-spew v1.1.1 // indirect
+	github.com/pmezard/go-difflib v1.0.0 // indirect
 )
